@@ -120,6 +120,8 @@ func checkC16(p *core.Program, r *core.Report) {
 	c16R15(p, r, fns)
 	r.Rule("R16", "things are merged only when their names are equal: where the legacy migration de-duplicates by a text-keyed map (a lookup and an insert on the same map in one function), the insert uses the key of the lookup and that key is, unchanged, the name given to the object that is created when the lookup fails — a folded or trimmed key merges rules whose categories differ (Yes / YES) and the second rule's exit and destination disappear from the migrated flow")
 	c16R16(p, r)
+	r.Rule("R17", "an ordering treats both sides alike: in the definition packages (flows/definition, …/legacy, …/migrations) the comparison function handed to sort.Slice / sort.SliceStable reads the element at its first index as many times as the element at its second — a comparator that special-cases only its left element (`if nodes[i] is the entry { return true }`) is not an ordering, and whether the entry node ends up first then depends on where the sort happens to compare it from")
+	c16R17(p, r)
 	r.Rule("R13", "null elements are rejected at load: every JSON member of a definition struct (flow, node, action, router, case, wait types) that is a slice or map of pointers to structs carries `dive,required` in its validate tag — the repository's idiom (nodes, exits) for turning `[null]` into a validation error — since the code that later ranges over the slice dereferences each element")
 	c16R13(p, r)
 	r.Rule("R12", "a truncation is decided by the value it cuts: where a call that truncates X to N characters (stringsx.Truncate, directly or through a local helper) is controlled by a length comparison, a comparison against N measures X itself, and a comparison of len(X) uses a bound of at most N")
@@ -1347,6 +1349,59 @@ func c16R13(p *core.Program, r *core.Report) {
 }
 
 // ---------------------------------------------------------------------------------------------- R15
+
+// c16R17: comparison functions read both elements alike.
+func c16R17(p *core.Program, r *core.Report) {
+	n := 0
+	per := map[string]int{}
+	for _, fn := range p.ModuleFunctions() {
+		if !strings.HasPrefix(core.RelPkg(core.FuncPkgPath(fn)), "flows/definition") || p.IsTestFile(fn.Pos()) {
+			continue
+		}
+		for _, cs := range core.Calls(fn, false) {
+			o := core.CalleeObj(cs.Common())
+			if o == nil || o.Pkg() == nil || o.Pkg().Path() != "sort" || (o.Name() != "Slice" && o.Name() != "SliceStable") || len(cs.Common().Args) < 2 {
+				continue
+			}
+			var less *ssa.Function
+			switch x := cs.Common().Args[1].(type) {
+			case *ssa.MakeClosure:
+				less, _ = x.Fn.(*ssa.Function)
+			case *ssa.Function:
+				less = x
+			}
+			if less == nil || len(less.Params) != 2 {
+				continue
+			}
+			n++
+			reads := [2]int{}
+			core.EachInstr(less, false, func(_ *ssa.Function, in ssa.Instruction) {
+				var idx ssa.Value
+				switch x := in.(type) {
+				case *ssa.IndexAddr:
+					idx = x.Index
+				case *ssa.Index:
+					idx = x.Index
+				}
+				for k := 0; k < 2; k++ {
+					if idx == ssa.Value(less.Params[k]) {
+						reads[k]++
+					}
+				}
+			})
+			k := core.FuncName(fn)
+			per[k]++
+			key := k + "/less"
+			if per[k] > 1 {
+				key = fmt.Sprintf("%s#%d", key, per[k])
+			}
+			r.Check(reads[0] == reads[1], "R17", key+"/reads-both-sides-alike", p.Pos(cs.Pos()), fmt.Sprintf("%d reads of each element", reads[0]),
+				fmt.Sprintf("the comparison function reads the element at its first index %d times and the one at its second %d times: it special-cases one side only and is not an ordering", reads[0], reads[1]))
+		}
+	}
+	r.Count("sort_comparators_in_definition_packages", n)
+	r.Require("sort_comparators_in_definition_packages", n, 1)
+}
 
 // c16R16: de-duplication maps of the legacy migration are keyed by the name the merged object gets.
 func c16R16(p *core.Program, r *core.Report) {
